@@ -18,6 +18,7 @@ mcAdvS ==
   \cup {<<F_D(sid, 2, es)>> : sid \in Sids, es \in BOOLEAN}
   \cup {<<[t |-> "RST", sid |-> sid, code |-> 8]>> : sid \in Sids}
   \cup {<<[t |-> "WU", sid |-> sid, inc |-> 5]>> : sid \in Sids \cup {0}}
+  \cup {<<AWU(1, 2147483647)>>, <<AD(1, 2, FALSE, 3)>>}        \* window overflow; padded DATA
 mcSetup == <<
   [a |-> "call", x |-> "s", c |-> [op |-> "init"]],
   [a |-> "recv", x |-> "s", fs |-> <<[t |-> "SET", ack |-> FALSE, s |-> <<<<4, 10>>>>]>>],
